@@ -21,8 +21,9 @@ RULE = (
     "parameters) and a history of <= 10 steps: checkin (library HttpBeaconClient.get_task, optionally with a queued "
     "task), callback (library send_callback), multi_callback (reference beacon, 2-4 concatenated packets), "
     "unrelated_request. The peer is a recording loopback HTTP server driven by the reference codec. After every step "
-    "a fresh C2Http per key variant (RSA private key only / aes_rand / AES+HMAC keys) is fed all raw messages so far "
-    "and must yield exactly the model's packets in order; get_task() must return the queued task; unrelated requests "
+    "a fresh C2Http per key variant (RSA private key only / aes_rand / AES+HMAC keys) is fed all raw messages so far, "
+    "and a persistent C2Http per variant is fed only the new messages; both "
+    "must yield exactly the model's packets in order; get_task() must return the queued task; unrelated requests "
     "must raise ValueError. Non-trivial session: >= 1 task, >= 1 callback and >= 3 messages. Distinct by history."
 )
 ASSUMPTIONS = [
@@ -231,6 +232,24 @@ class Session:
             "aes_rand": dict(aes_rand=aes_rand),
             "keys": dict(aes_key=aes, hmac_key=hk),
         }
+        # (1) a persistent decoder per key variant, fed incrementally (the way a capture is processed) ...
+        if not hasattr(self, "persistent"):
+            self.persistent = {}
+            self.fed = 0
+        for vname, kw in variants.items():
+            if vname not in self.persistent:
+                self.persistent[vname] = lib(c2.C2Http, self.bconfig, what=f"C2Http({vname})", **kw)
+            dec = self.persistent[vname]
+            for i in range(self.fed, len(self.messages)):
+                raw, exp = self.messages[i]
+                want = exp[vname]
+                r = lib(lambda: list(dec.iter_recover_http(raw)), allow=(ValueError,), what=f"persistent C2Http[{vname}].iter_recover_http(message {i})")
+                if want == "ValueError":
+                    check(isinstance(r, Raised), "decode:unrelated_not_rejected", f"[{vname}, persistent] unrelated request {raw[:80]!r} decoded to {r!r}")
+                elif isinstance(r, Raised) or [self.packet_tuple(p) for p in r] != want:
+                    raise Violation("decode:persistent_decoder", f"[{vname}] persistent decoder, message {i}: got {r if isinstance(r, Raised) else [self.packet_tuple(p) for p in r]!r}, sent {want!r}; raw={raw[:200]!r}; cfg={self.cfg}"[:1800])
+        self.fed = len(self.messages)
+        # (2) ... and a fresh decoder per key variant fed the whole session so far
         for vname, kw in variants.items():
             dec = lib(c2.C2Http, self.bconfig, what=f"C2Http({vname})", **kw)
             for i, (raw, exp) in enumerate(self.messages):
